@@ -68,6 +68,21 @@ theorem sortDesc_perm (l : List (List Nat)) : (sortDesc l).Perm l := by
     show (insertDesc x (sortDesc xs)).Perm (x :: xs)
     exact (insertDesc_perm x _).trans (List.Perm.cons x ih)
 
+/-- the corner word read along the walk of length `n` from `σ` -/
+def seqOf (y : DSymData) (σ : Dart) (n : Nat) : List Nat := ((dlist y σ n).map (vOf y)).filter (· > 1)
+
+/-- the record of the traces: every result entry is `best_cyclic` of the corner word of one closed
+    walk, and the marked darts are the darts of these walks -/
+structure StartsOK (y : DSymData) (result : List (List Nat)) (M : List Dart) (starts : List (Dart × Nat)) : Prop where
+  ok : ∀ p ∈ starts, ValidDart y p.1 ∧ 0 < p.2 ∧ (phi y)^[p.2] p.1 = p.1
+  res : result = starts.map fun p => bestCyclic (seqOf y p.1 p.2)
+  eqM : M = starts.reverse.flatMap fun p => (dlist y p.1 p.2).reverse
+
+theorem StartsOK.mem {y : DSymData} {result : List (List Nat)} {M : List Dart} {starts : List (Dart × Nat)}
+    (h : StartsOK y result M starts) (δ : Dart) : δ ∈ M ↔ ∃ p ∈ starts, δ ∈ dlist y p.1 p.2 := by
+  rw [h.eqM]
+  simp only [List.mem_flatMap, List.mem_reverse]
+
 /-! ### extending the marked set by one complete trace -/
 
 section
@@ -126,6 +141,8 @@ structure TraceInv (st : TraceState) (M : List Dart) : Prop where
   marked : Marked y M
   seen : st.seen = M.map Dart.le
   result : st.result.flatten.Perm ((M.map (vOf y)).filter (· > 1))
+  /-- the record of the traces made so far: start dart and length of the walk -/
+  starts : ∃ starts : List (Dart × Nat), StartsOK y st.result M starts
 
 theorem traceStep_spec (rep : Rep) {st : TraceState} {M : List Dart} (inv : TraceInv (y := y) st M)
     {i d : Nat} (hi : i ≤ 2) (hd : 1 ≤ d ∧ d ≤ y.size) :
@@ -194,7 +211,8 @@ theorem traceStep_spec (rep : Rep) {st : TraceState} {M : List Dart} (inv : Trac
     rw [hrun']
     simp only [List.nil_append, List.drop_zero]
     have hM' := marked_extend h hdim inv.marked h0 hn hcl hndn
-    refine ⟨_, (dlist y (i, k, d) n).reverse ++ M, rfl, ⟨hM', ?_, ?_⟩, ?_, ?_⟩
+    obtain ⟨starts, hst⟩ := inv.starts
+    refine ⟨_, (dlist y (i, k, d) n).reverse ++ M, rfl, ⟨hM', ?_, ?_, ?_⟩, ?_, ?_⟩
     · show _ = ((dlist y (i, k, d) n).reverse ++ M).map Dart.le
       rw [List.map_append]
     · show (st.result ++ [bestCyclic _]).flatten.Perm _
@@ -203,6 +221,18 @@ theorem traceStep_spec (rep : Rep) {st : TraceState} {M : List Dart} (inv : Trac
       refine (List.Perm.append inv.result (bestCyclic_perm _)).trans ?_
       refine List.perm_append_comm.trans (List.Perm.append_right _ ?_)
       exact (List.Perm.filter _ ((List.reverse_perm _).map _)).symm
+    · refine ⟨starts ++ [((i, k, d), n)], ?_, ?_, ?_⟩
+      · intro p hp
+        rcases List.mem_append.1 hp with hp | hp
+        · exact hst.ok p hp
+        · simp only [List.mem_singleton] at hp
+          subst hp
+          exact ⟨h0, hn, hcl⟩
+      · show st.result ++ [bestCyclic _] = _
+        rw [List.map_append, ← hst.res]
+        rfl
+      · rw [List.reverse_append, List.flatMap_append, ← hst.eqM]
+        simp
     · intro p hp
       show p ∈ ((dlist y (i, k, d) n).reverse.map Dart.le) ++ M.map Dart.le
       rw [← inv.seen]
@@ -244,10 +274,11 @@ theorem trace_fold (rep : Rep) : ∀ (keys : List (Nat × Nat)) (st : TraceState
 theorem traceBoundary_marked (rep : Rep) :
     ∃ bnds M, traceBoundary ⟨y, rep⟩ = .ok bnds ∧ Marked y M ∧
       bnds.flatten.Perm ((M.map (vOf y)).filter (· > 1)) ∧
-      (∀ i d, i ≤ 2 → 1 ≤ d → d ≤ y.size → y.dset.opU i d = d → (i, d) ∈ M.map Dart.le) := by
+      (∀ i d, i ≤ 2 → 1 ≤ d → d ≤ y.size → y.dset.opU i d = d → (i, d) ∈ M.map Dart.le) ∧
+      ∃ result starts, bnds = sortDesc result ∧ StartsOK y result M starts := by
   have inv0 : TraceInv (y := y) { result := [], seen := [] } [] :=
     ⟨⟨fun δ hδ => by simp at hδ, fun δ hδ => by simp at hδ, fun δ hδ => by simp at hδ, List.nodup_nil⟩,
-     rfl, List.Perm.refl _⟩
+     rfl, List.Perm.refl _, ⟨[], fun p hp => by simp at hp, rfl, rfl⟩⟩
   have hkeys : ∀ k ∈ ((List.range (y.dim + 1)).flatMap fun i => (List.range y.size).map fun d0 => (i, d0 + 1)),
       k.1 ≤ 2 ∧ 1 ≤ k.2 ∧ k.2 ≤ y.size := by
     intro k hk
@@ -255,7 +286,8 @@ theorem traceBoundary_marked (rep : Rep) :
     obtain ⟨i, hi, d0, hd0, rfl⟩ := hk
     exact ⟨by omega, by simp, by simp; omega⟩
   obtain ⟨st, M, hs, inv, _, hall⟩ := trace_fold h hdim rep _ _ _ inv0 hkeys
-  refine ⟨sortDesc st.result, M, ?_, inv.marked, ?_, ?_⟩
+  obtain ⟨starts, hst⟩ := inv.starts
+  refine ⟨sortDesc st.result, M, ?_, inv.marked, ?_, ?_, st.result, starts, rfl, hst⟩
   · unfold traceBoundary
     have hview : (⟨y, rep⟩ : Sym).view = y.view := rfl
     have hd : (⟨y, rep⟩ : Sym).dim = y.dim := rfl
